@@ -285,6 +285,7 @@ var ctxNames = map[parser.ContextType]string{parser.GlobalContext: "global", par
 var customSpell = map[string]byte{"DYN0": '^', "DYN1": '@', "DYN2": '#', "DYN3": '~', "DYN4": '?'}
 
 type built struct {
+	names map[token.Type]string // dynamic token type -> the name it was registered under
 	lb    *lexer.Builder
 	pb    *parser.Builder
 	plog  *[]event
@@ -295,7 +296,7 @@ type built struct {
 // buildParserBuilder assembles lexer and parser builders for a configuration, with logging
 // interceptors. posIndex (start position -> token index) is filled in by the caller.
 func buildParserBuilder(cfg parseCfg, posIndex map[[2]int]int) *built {
-	b := &built{plog: &[]event{}, tlog: &[]event{}, regOK: map[string]string{}}
+	b := &built{plog: &[]event{}, tlog: &[]event{}, regOK: map[string]string{}, names: map[token.Type]string{}}
 	lb := lexer.NewBuilder()
 	// dynamic token types for custom operators, in DYN0.. order
 	names := []string{}
@@ -325,6 +326,7 @@ func buildParserBuilder(cfg parseCfg, posIndex map[[2]int]int) *built {
 		}
 		t := lb.RegisterTokenType(n)
 		dyn[n] = t
+		b.names[t] = n
 		byChar[customSpell[n]] = t
 	}
 	if len(byChar) > 0 {
@@ -475,7 +477,15 @@ func msgCategory(m string) string {
 
 // lexForParser lexes src with the given lexer builder into the token list the parser will see
 // (up to and including the first EOF).
-func lexForParser(lb *lexer.Builder, src string) []ptok {
+func lexForParser(lb *lexer.Builder, src string, names ...map[token.Type]string) []ptok {
+	tokName := func(t token.Type) string {
+		if len(names) > 0 {
+			if n, ok := names[0][t]; ok {
+				return n
+			}
+		}
+		return tokName(t)
+	}
 	l := lb.Build(src)
 	out := []ptok{}
 	limit := 4*len(src) + 16
@@ -585,7 +595,7 @@ func doParse(src string, cfg parseCfg) *parseObs {
 	posIndex := map[[2]int]int{}
 	b := buildParserBuilder(cfg, posIndex)
 	// token list as seen by the parser (own lexer instance, logging interceptors muted afterwards)
-	toks := lexForParser(b.lb, src)
+	toks := lexForParser(b.lb, src, b.names)
 	*b.tlog = (*b.tlog)[:0]
 	for i, t := range toks {
 		k := [2]int{t.SL, t.SC}
